@@ -7,6 +7,8 @@ import contextlib
 import io
 import itertools
 import math
+import re
+import warnings
 from fractions import Fraction
 
 from vcheck import Case, gnlist, gq, gbool
@@ -16,23 +18,27 @@ PROP = "C10"
 LEVEL = "proof"
 GEN_UNITS = []
 SHARD = 6
-COQ_TARGETS = ["Props/C10.vo", "Props/C10Loop.vo", "Model/C10Check.vo", "Model/Harness.vo"]
-THEOREM_FILES = ["Props/C10.v", "Props/C10Loop.v"]
+COQ_TARGETS = ["Props/C10.vo", "Props/C10Loop.vo", "Props/C10W3b.vo", "Model/C10Check.vo", "Model/Harness.vo"]
+THEOREM_FILES = ["Props/C10.v", "Props/C10Loop.v", "Props/C10W3b.v"]
 COQ_IMPORTS = ("From Coq Require Import List ZArith Bool QArith Qcanon.\n"
                "From PV Require Import Base.Index Np.Array Model.Sparse Model.Repr Model.Harness Model.C10Tucker Model.C10Check.\n")
 RULE = ("integer tensors <= 4x3x3 (1- to 4-way, singleton modes, low-rank + noise, full random, graded spectra with component weights "
         "2^(g*j)) times a power of two 2^sexp, sexp in {-40..40} and sexp with ||2^sexp X||^2 just above 2^-52 (entries down to 1e-12 / up to 1e12: every hosvd / tucker_als case also runs "
         "as a scaled copy; the returned core is de-scaled exactly by 2^-sexp before the exact recomputation, so every checked relation "
         "is the scale-free one), tolerances {1e-5, 1e-3, 1e-2, 0.05..0.9}, "
-        "narrow integer holders (uint8/int16/int32, values 0..255; the starting factors returned by tucker_als(init='nvecs') must span invariant subspaces of the mode Gram matrices of the data), "
+        "narrow integer holders (uint8/int16/int32; values 0..255, 0..15 (no square wraps), multiples of 16 (squares 0 mod 256), 182..255 (squares negative in int16); "
+        "the starting factors returned by tucker_als(init='nvecs') must span invariant subspaces of the mode Gram matrices of the data; hosvd_print = the same request at the "
+        "default verbosity: printed ||X-T||/||X|| = recomputed, no warning, no crash, and for narrow holders the rank rule (finding C10-N02)), "
         "rank vectors within the mode sizes (all given, all automatic, mixed given/automatic), sequential True/False, all/random mode "
-        "orders, the caller's ranks array observed after the call, tucker_als with list/nvecs/random init and maxiters 0..3 (0 must be rejected: finding C10-N01); "
+        "orders, the caller's ranks array observed after the call, tucker_als with list/nvecs/random init, maxiters 0..4 (0 must be rejected: finding C10-N01), stoptol {0, 1e-4, 1e-2, 0.3}: the stop rule is evaluated in Coq "
+        "(transliterated loop replaying the per-iteration fits = reported fits of the runs truncated at 1..k iterations, cross-checked with the lines printed by the run itself); "
         "non-trivial = more than one cell per two modes and a truncation is possible; distinct = distinct (op,args)")
 CORRESPONDENCE_ONLY = ["eigen-decomposition (LAPACK eigh / ARPACK eigsh): certificate-checked oracle; the Ky-Fan optimality of the leading "
                        "eigenvectors enters C10_hooi_monotone as the stated eigen-oracle contract",
-                       "ttensor.full reconstruction (core x_n U_n) against the exact ttm chain (one mode: C10_ttm_is_projector is proved)",
                        "the numeric oracles of the transliterated loops (Model/C10Loop.v: Gram/eigh/sort, leading block, ttm, nvecs, norms) and "
-                       "the loops' tie to pyttb (observed ranks, column counts, iters, fit trace; not translator-generated)"]
+                       "the loops' tie to pyttb (observed ranks, column counts, iters, per-iteration fit trace replayed through the loop model, printed lines; "
+                       "not translator-generated)",
+                       "printed relative error of hosvd (default verbosity) against the exact recomputation"]
 ASSUMPTIONS = ["floats are converted to rationals after rounding to the 2^-40 grid (abs. error <= 5e-13, inside the 1e-9 tolerance)",
                "theorems are over exact real arithmetic (stdlib Reals axioms); IEEE rounding is not modelled",
                "scaled copies: data * 2^sexp is exact in binary floating point, the returned core is multiplied by 2^-sexp (exact) and "
@@ -44,7 +50,9 @@ EXPLANATION = ("C10_rank_choice / C10_given_ranks / C10_ncols: theorems about th
                "error <= tol for both strategies and every mode order; C10_hooi_monotone / C10_hooi_fit_monotone: ||core|| and the fit never "
                "decrease under the eigen-oracle contract; C10_tucker_als_fit: fit identity; C10_frob_space .. C10_concrete_fit / C10_ttm_is_projector: "
                "the abstract space and projectors instantiated by dense real tensors and ttm with U U^T; Props/C10Loop.v: bookkeeping of the "
-               "transliterated hosvd / tucker_als loops (validation, ranks, modes treated once, iteration count, fit trace, stop rule); the correspondence recomputes every claimed "
+               "transliterated hosvd / tucker_als loops (validation, ranks, modes treated once, iteration count, fit trace, stop rule); Props/C10W3b.v: C10_tucker_full "
+               "(the reconstruction recomputed by the correspondence = pyttb's ttm kernel over all modes = den_t), C10_stop_rule_check (soundness of the stop-rule check run on "
+               "every sampled tucker_als trace), C10_wrapped_normsq_le / C10_smaller_budget_safe (finding C10-N02 cannot break the error bound); the correspondence recomputes every claimed "
                "relation exactly in Qc on pyttb's returned factors and core.")
 
 GRID = 2 ** 40
@@ -141,12 +149,34 @@ def _scaled_copies(rng, base, big):
             ks.append(rng.choice(LARGE))
         if c.op in ("hosvd_auto", "hosvd_mixed"):
             ks.append(_near_eps_exp(rng, c.args["data"]))
+        if c.op == "hosvd_print":
+            ks = ks[:1]
         if big:
             ks.append(rng.choice(MID))
         out.append(c)                     # interleaved: a case is followed by its scaled copies
         for k in dict.fromkeys(ks):
             out.append(Case(c.op, dict(c.args, sexp=k), c.nontrivial))
     return out
+
+
+STOPTOLS = [0.0, 0.0, 1e-4, 1e-2, 0.3]      # 0: never stops early; 0.3: stops in the first iterations
+
+
+def _narrow_data(rng, n):
+    """image-like values for a narrow integer holder: any 0..255 (squares wrap in uint8 / int16), small values (no square wraps: <= 15),
+    multiples of 16 (every square is 0 mod 256), large values (>= 182: squares are negative in int16)"""
+    kind = rng.random()
+    if kind < 0.4:
+        v = [rng.randint(0, 255) for _ in range(n)]
+    elif kind < 0.6:
+        v = [rng.randint(0, 15) for _ in range(n)]
+    elif kind < 0.8:
+        v = [16 * rng.randint(0, 15) for _ in range(n)]
+    else:
+        v = [rng.randint(182, 255) for _ in range(n)]
+    if not any(v):
+        v[0] = 208
+    return v
 
 
 SHAPES_Q = [(3,), (3, 2), (2, 4), (2, 2, 2), (3, 2, 2), (4, 3, 3), (2, 3, 4), (1, 3, 2), (3, 1, 2), (2, 2, 2, 2)]
@@ -171,6 +201,10 @@ def gen_cases(rng, tier):
                 order = list(rng.choice(perms))
                 cases.append(Case("hosvd_auto", {"shape": list(shp), "data": data, "tol": [tol.numerator, tol.denominator],
                                                  "sequential": seq, "dimorder": order}, nt))
+            if d >= 2:                      # default verbosity: the printed relative error is the recomputed one, no warning
+                tol = rng.choice(TOLS)
+                cases.append(Case("hosvd_print", {"shape": list(shp), "data": _tensor(rng, shp), "tol": [tol.numerator, tol.denominator],
+                                                  "sequential": rng.random() < 0.5, "dimorder": list(rng.choice(perms))}, nt))
             if big and d <= 3:
                 data = _tensor(rng, shp)
                 tol = rng.choice(TOLS)
@@ -202,9 +236,18 @@ def gen_cases(rng, tier):
                 init = kind
                 if kind == "list":
                     init = [[[rng.randint(-2, 3) for _ in range(ranks[n])] for _ in range(shp[n])] for n in range(d)]
-                cases.append(Case("tucker_als", {"shape": list(shp), "data": data, "ranks": ranks, "maxiters": rng.randint(1, 3),
+                cases.append(Case("tucker_als", {"shape": list(shp), "data": data, "ranks": ranks, "maxiters": rng.randint(1, 4),
                                                  "dimorder": list(rng.choice(perms)), "init": init,
-                                                 "stoptol": rng.choice([0.0, 1e-4])}, nt))
+                                                 "stoptol": rng.choice(STOPTOLS)}, nt))
+            # converged runs and ties: exactly rank-(1,..,1) data with ranks 1 / any data with full ranks, stoptol 0 (the test
+            # `fitchange < stoptol` must NOT fire on a fit change of exactly 0) and a positive stoptol (fires in iteration 1)
+            if d >= 2 and rng.random() < (0.8 if big else 0.5):
+                full = rng.random() < 0.5
+                cdata = _tensor(rng, shp) if full else _lowrank(rng, shp, 1, 0.0)
+                if any(cdata):
+                    cases.append(Case("tucker_als", {"shape": list(shp), "data": cdata, "ranks": list(shp) if full else [1] * d,
+                                                     "maxiters": rng.choice([3, 4]), "dimorder": list(rng.choice(perms)),
+                                                     "init": rng.choice(["nvecs", "random"]), "stoptol": rng.choice([0.0, 0.0, 1e-4])}, nt))
             if d >= 2 and rng.random() < (0.5 if big else 0.25):     # iteration limit 0 (passes the argument checks)
                 cases.append(Case("tucker_als", {"shape": list(shp), "data": _tensor(rng, shp), "ranks": [rng.randint(1, s) for s in shp],
                                                  "maxiters": 0, "dimorder": list(rng.choice(perms)),
@@ -212,15 +255,17 @@ def gen_cases(rng, tier):
             # narrow integer data holders (image-like values 0..255 in uint8 / int16 / int32): same values, same answers
             if d >= 2:
                 dt = rng.choice(["uint8", "uint8", "uint8", "int16", "int16", "int32"])
-                idata = [rng.randint(0, 255) for _ in range(math.prod(shp))]
-                if not any(idata):
-                    idata[0] = 200
+                idata = _narrow_data(rng, math.prod(shp))
                 cases.append(Case("tucker_als", {"shape": list(shp), "data": idata, "ranks": [rng.randint(1, s) for s in shp],
                                                  "maxiters": rng.randint(1, 3), "dimorder": list(rng.choice(perms)), "init": "nvecs",
-                                                 "stoptol": 0.0, "dtype": dt}, nt))
+                                                 "stoptol": rng.choice([0.0, 0.0, 1e-2]), "dtype": dt}, nt))
                 tol = rng.choice(TOLS)
-                cases.append(Case("hosvd_auto", {"shape": list(shp), "data": idata, "tol": [tol.numerator, tol.denominator],
-                                                 "sequential": rng.random() < 0.5, "dimorder": list(rng.choice(perms)), "dtype": dt}, nt))
+                ha = {"shape": list(shp), "data": idata, "tol": [tol.numerator, tol.denominator],
+                      "sequential": rng.random() < 0.5, "dimorder": list(rng.choice(perms)), "dtype": dt}
+                cases.append(Case("hosvd_auto", dict(ha), nt))
+                # the same request with the default verbosity: printed relative error, no warning, no crash; rank rule also for the
+                # narrow holder (the squared norm must not be formed in the holder's dtype: finding C10-N02)
+                cases.append(Case("hosvd_print", dict(ha), nt))
     # graded spectra with tight tolerances (unscaled; the scaled copies follow)
     for shp in shapes:
         d = len(shp)
@@ -290,9 +335,28 @@ def run_impl(c):
             o = _obs_tt(np, T, k)
             o["certs"], o["margin"] = _certs(np, a, T)
             if Xref is not None:
-                # hosvd squares the data in its own dtype (normxsqr wraps for uint8/int16): the budget only gets smaller, the bound
-                # still holds but more columns than the rule demands are kept -> the rank rule is not compared for these holders
+                # narrow holders: the rank rule (minimality) is compared by the hosvd_print case of the same request (finding C10-N02);
+                # here: structure and error bound only
                 o["margin"] = 0.0
+            return o
+        if c.op == "hosvd_print":
+            # default verbosity (1): hosvd reconstructs the result and prints ||X-T||/||X||; it warns when the tolerance is not met
+            tol = a["tol"][0] / a["tol"][1]
+            buf = io.StringIO()
+            with warnings.catch_warnings(record=True) as wl:
+                warnings.simplefilter("always")
+                with contextlib.redirect_stdout(buf):
+                    T = ttb.hosvd(X, tol, dimorder=list(a["dimorder"]), sequential=a["sequential"])
+            o = _obs_tt(np, T, k)
+            o["certs"], o["margin"] = _certs(np, a, T)
+            o["warned"] = [str(w.message)[:80] for w in wl if "olerance" in str(w.message) or issubclass(w.category, RuntimeWarning)]
+            lines = [ln for ln in buf.getvalue().splitlines() if "||X-T||/||X||" in ln]
+            o["printed_line"] = lines[0][:120] if lines else None
+            m = re.search(r"\|\|X-T\|\|/\|\|X\|\| =\s*(\S+)\s*([<>]=)", lines[0]) if lines else None
+            o["printed"] = None
+            if m and m.group(1).lower() not in ("nan", "inf", "-inf"):
+                o["printed"] = Fraction(m.group(1))
+            o["printed_rel"] = m.group(2) if m else None
             return o
         if c.op in ("hosvd_ranks", "hosvd_mixed"):
             tol = a["tol"][0] / a["tol"][1] if "tol" in a else 0.5
@@ -314,24 +378,47 @@ def run_impl(c):
                 return {"rejected": "ValueError", "msg": str(ex)[:200]}
             return {"exc": "none", "msg": "tucker_als(maxiters=0) returned a result without running a sweep"}
         if c.op == "tucker_als":
-            fits = []
-            res = None
-            for mi in (1, 2, 3):
+            def one_run(mi, stoptol):
                 init = a["init"]
                 if isinstance(init, list):
                     init = [np.array(m, dtype=float).reshape((a["shape"][n], a["ranks"][n])) for n, m in enumerate(init)]
                 np.random.seed(12345)
-                with contextlib.redirect_stdout(io.StringIO()):
-                    M, M0, out = ttb.tucker_als(X.copy(), list(a["ranks"]), stoptol=a["stoptol"], maxiters=mi,
-                                                dimorder=list(a["dimorder"]), init=init, printitn=0)
-                fits.append(rq(out["fit"]))
-                if mi == a["maxiters"]:
-                    res = _obs_tt(np, M, k)
-                    if a["init"] == "nvecs":          # the returned starting guess (None for the first mode of dimorder)
-                        res["init_f"] = [None if U0 is None else [[rq(x) for x in row] for row in np.asarray(U0)] for U0 in M0]
-                    res["fit"] = rq(out["fit"])
-                    res["iters"] = int(out["iters"])
-            res["fits"] = fits
+                buf = io.StringIO()
+                with contextlib.redirect_stdout(buf):
+                    M, M0, out = ttb.tucker_als(X.copy(), list(a["ranks"]), stoptol=stoptol, maxiters=mi,
+                                                dimorder=list(a["dimorder"]), init=init, printitn=1)
+                # the printed per-iteration lines of the run: " Iter k: fit = %e fitdelta = %7.1e"
+                pl = re.findall(r"^ Iter\s+(\d+): fit = (\S+) fitdelta = (\S+)", buf.getvalue(), re.M)
+                return M, M0, out, [int(x[0]) for x in pl], [Fraction(x[1]) for x in pl]
+
+            # runs truncated at 1, 2, 3 iterations (stoptol 0: exactly that many sweeps); the longest one also gives a within-run trace
+            exact, long_trace = [], []
+            for mi in (1, 2, 3):
+                _, _, out, _, long_trace = one_run(mi, 0.0)
+                exact.append(float(out["fit"]))
+            # the run under test
+            M, M0, out, piters, pt = one_run(a["maxiters"], a["stoptol"])
+            res = _obs_tt(np, M, k)
+            if a["init"] == "nvecs":          # the returned starting guess (None for the first mode of dimorder)
+                res["init_f"] = [None if U0 is None else [[rq(x) for x in row] for row in np.asarray(U0)] for U0 in M0]
+            res["fit"] = rq(out["fit"])
+            res["iters"] = it = int(out["iters"])
+            res["printed_iters"], res["ptrace"] = piters, pt
+            # "fit never decreases over iterations": the fits after 1, 2, 3 sweeps = reported fits of the truncated runs (exact doubles) when
+            # tucker_als is reproducible on this input (they agree with the 7-digit lines printed inside the 3-sweep run); otherwise (ARPACK's
+            # random start vector + non-unique null-space columns when rank[n] exceeds the product of the other ranks) the printed within-run trace
+            close = Fraction(2, 10 ** 6)
+            if len(long_trace) == 3 and all(abs(x - Fraction(y)) <= close for x, y in zip(long_trace, exact)):
+                res["fits"], res["fits_src"], res["fits_eps"] = [rq(x) for x in exact], "truncated runs", Fraction(1, 10 ** 9)
+            else:
+                res["fits"], res["fits_src"], res["fits_eps"] = long_trace, "lines printed by the 3-sweep run", Fraction(4, 10 ** 6)
+            # per-iteration fit trace of the run under test: the fit after iteration i < iters is that of the run truncated at i+1 iterations
+            # (exact doubles) when that agrees with the printed line of the run itself, otherwise the printed values
+            et = [Fraction(x) for x in exact[:it]] + [Fraction(float(out["fit"]))]
+            if it <= 3 and len(pt) == it + 1 and all(abs(x - y) <= close for x, y in zip(pt, et)):
+                res["trace"], res["trace_src"], res["trace_res"] = et, "truncated runs (exact)", Fraction(1, 10 ** 9)
+            else:
+                res["trace"], res["trace_src"], res["trace_res"] = pt, "printed lines", Fraction(5, 10 ** 6)
             return res
     except Exception as ex:
         return {"exc": type(ex).__name__, "msg": str(ex)[:200]}
@@ -339,7 +426,28 @@ def run_impl(c):
 
 
 # ---------------------------------------------------------------- known findings
-TRIGGERS = {"tals_maxiters_zero": lambda c: c.op == "tucker_als" and c.args.get("maxiters") == 0}
+_BITS = {"uint8": (8, False), "int8": (8, True), "int16": (16, True), "uint16": (16, False), "int32": (32, True), "uint32": (32, False)}
+
+
+def _wrapped_normsq(data, dtype):
+    """sum of the squares formed in the holder's own integer dtype (two's complement wrap-around), summed exactly"""
+    b, signed = _BITS[dtype]
+    tot = 0
+    for x in data:
+        w = (x * x) % (1 << b)
+        if signed and w >= 1 << (b - 1):
+            w -= 1 << b
+        tot += w
+    return tot
+
+
+def _norm_wraps(c):
+    a = c.args
+    return c.op == "hosvd_print" and a.get("dtype") in _BITS and _wrapped_normsq(a["data"], a["dtype"]) != sum(x * x for x in a["data"])
+
+
+TRIGGERS = {"tals_maxiters_zero": lambda c: c.op == "tucker_als" and c.args.get("maxiters") == 0,
+            "hosvd_normsq_wraps": _norm_wraps}
 
 
 def _wit_n01():
@@ -356,7 +464,21 @@ def _wit_n01():
     return "tucker_als(X, [1,2,2], maxiters=0) returned a result without running a sweep"
 
 
-WITNESSES = {"C10-N01": _wit_n01}
+def _wit_n02():
+    import numpy as np
+    import pyttb as ttb
+    X = ttb.tensor(np.array([[16, 16, 16], [16, 16, 32]], dtype="uint8"))      # every square is 0 mod 256
+    try:
+        with contextlib.redirect_stdout(io.StringIO()):
+            T = ttb.hosvd(X, 0.5)
+    except Exception as ex:
+        return f"hosvd(uint8 [[16,16,16],[16,16,32]], tol=0.5) raised {type(ex).__name__}: {ex}"
+    if T.core.shape != (1, 1):
+        return f"hosvd(uint8 [[16,16,16],[16,16,32]], tol=0.5) keeps core {T.core.shape}; the float64 holder of the same values gives (1, 1)"
+    return None
+
+
+WITNESSES = {"C10-N01": _wit_n01, "C10-N02": _wit_n02}
 
 
 # ---------------------------------------------------------------- Coq side
@@ -381,6 +503,18 @@ def _relerr_slack(tol):
     return Fraction(tol) / 10 ** 9 + Fraction(1, 10 ** 13)
 
 
+def _stop_margin(a, o):
+    """distance of every observed fit change from the stopping tolerance"""
+    st = Fraction(float(a["stoptol"]))
+    if st <= 0:                      # `fitchange < 0` can never fire, whatever the resolution of the trace
+        return Fraction(1)
+    prev, m = Fraction(0), Fraction(1)
+    for f in o["trace"]:
+        m = min(m, abs(abs(prev - f) - st))
+        prev = f
+    return m
+
+
 def extra_wrap(e, extra):
     return e + extra
 
@@ -399,6 +533,15 @@ def coq_check(c, o):
             certs = "[" + "; ".join(f"({gqmat(ct['W'])}, {gqlist(ct['mu'])})" for ct in o["certs"]) + "]"
             e += f" && auto_ranks_ok {gq(CERT_EPS)} {gq(tol * tol)} {gbool(a['sequential'])} {X} {gnlist(a['dimorder'])} {T} {certs}"
         return e
+    if c.op == "hosvd_print":
+        if o["printed"] is None or o["warned"] or o["printed_rel"] != "<=":
+            return "false"
+        tol = Fraction(a["tol"][0], a["tol"][1])
+        e = f"tucker_struct eps9 {X} {T} && relprint_ok eps9 {gq(o['printed'])} {X} {T}"
+        if "dtype" in a and o["margin"] > MARGIN:
+            certs = "[" + "; ".join(f"({gqmat(ct['W'])}, {gqlist(ct['mu'])})" for ct in o["certs"]) + "]"
+            e += f" && auto_ranks_ok {gq(CERT_EPS)} {gq(tol * tol)} {gbool(a['sequential'])} {X} {gnlist(a['dimorder'])} {T} {certs}"
+        return e
     if c.op == "hosvd_ranks":
         return (f"tucker_struct eps9 {X} {T} && ranks_are {T} {gnlist(a['ranks'])} && "
                 f"nvec_eqb {gnlist(o['ranks_after'])} {gnlist(a['ranks'])}")
@@ -408,8 +551,13 @@ def coq_check(c, o):
     if c.op == "tucker_als":
         fits = gqlist(o["fits"])
         extra = "".join(f" && invariant_ok eps8 {X} {n} {gqmat(U0)}" for n, U0 in enumerate(o.get("init_f", [])) if U0 is not None)
+        # the stop rule, evaluated by the transliterated loop replaying the observed per-iteration fits (unless a fit change is within
+        # the resolution of the trace of the tolerance)
+        if _stop_margin(a, o) > 2 * o["trace_res"]:
+            extra += (f" && stop_ok {gq(Fraction(float(a['stoptol'])))} {a['maxiters']} {o['iters']} {gqlist(o['trace'])} {gq(o['trace'][-1])}"
+                      f" && nvec_eqb {gnlist(o['printed_iters'])} (seq 0 {o['iters'] + 1})")
         return extra_wrap(f"tucker_struct eps9 {X} {T} && ranks_are {T} {gnlist(a['ranks'])} && fit_ok eps9 {gq(o['fit'])} {X} {T} "
-                f"&& nondecr eps9 {fits} && Nat.leb {o['iters']} {a['maxiters'] - 1}", extra)
+                f"&& nondecr {gq(o['fits_eps'])} {fits} && Nat.leb {o['iters']} {a['maxiters'] - 1}", extra)
     raise ValueError(c.op)
 
 
@@ -487,7 +635,15 @@ def oracle(c, o):
     for n in range(d):
         s, rec = _py_ttm(s, rec, n, Us[n])
     errsq = sum((x - y) ** 2 for x, y in zip(X, rec))
-    if c.op == "hosvd_auto":
+    if c.op == "hosvd_print":
+        if o["warned"]:
+            return f"default verbosity: warning(s) {o['warned']} although the tolerance is met (printed: {o['printed_line']!r})"
+        if o["printed"] is None or o["printed_rel"] != "<=":
+            return f"default verbosity: printed relative error line is {o['printed_line']!r}; recomputed ||X-T||/||X|| = {math.sqrt(errsq / normsq)}"
+        p = float(o["printed"])
+        if abs(p * p * normsq - errsq) > 3e-5 * p * p * normsq + 1e-9 * max(1.0, normsq):
+            return f"printed relative error {p} but recomputed ||X-T||/||X|| = {math.sqrt(errsq / normsq)}"
+    if c.op in ("hosvd_auto", "hosvd_print"):
         tol = a["tol"][0] / a["tol"][1]
         if errsq > tol * tol * normsq + float(_relerr_slack(tol)) * max(1.0, normsq):
             return f"relative error {math.sqrt(errsq / normsq)} exceeds tol {tol}"
@@ -507,9 +663,27 @@ def oracle(c, o):
             why = _py_invariant(shp, X, n, [[float(x) for x in row] for row in U0])
             if why:
                 return f"init='nvecs' (data held as {a.get('dtype', 'float64')}): starting factor {n} {why}"
+        # stop rule on the per-iteration trace: plain replay
+        if _stop_margin(a, o) > 2 * o["trace_res"]:
+            prev, want = 0.0, a["maxiters"] - 1
+            tr = [float(x) for x in o["trace"]]
+            for i in range(a["maxiters"]):
+                if i >= len(tr):
+                    want = None
+                    break
+                if abs(prev - tr[i]) < a["stoptol"]:
+                    want = i
+                    break
+                prev = tr[i]
+            if want is None:
+                return (f"stop rule: fit trace {tr} ({o['trace_src']}) with stoptol {a['stoptol']}, maxiters {a['maxiters']}: the convergence test "
+                        f"did not fire and the limit was not reached, yet pyttb stopped with iters = {o['iters']}")
+            if want != o["iters"] or len(tr) != o["iters"] + 1 or o["printed_iters"] != list(range(o["iters"] + 1)):
+                return (f"stop rule: fit trace {tr} ({o['trace_src']}) with stoptol {a['stoptol']}, maxiters {a['maxiters']} ends at iteration "
+                        f"{want}, pyttb reports iters = {o['iters']} and printed iterations {o['printed_iters']}")
         f = [float(x) for x in o["fits"]]
-        if any((1 - f[i + 1]) ** 2 > (1 - f[i]) ** 2 + 1e-8 for i in range(len(f) - 1)):
-            return f"fit decreases over iterations: {f}"
+        if any((1 - f[i + 1]) ** 2 > (1 - f[i]) ** 2 + max(1e-8, 2 * float(o["fits_eps"])) for i in range(len(f) - 1)):
+            return f"fit decreases over iterations: {f} ({o['fits_src']})"
     return None
 
 
